@@ -223,7 +223,13 @@ func buildDocVerificationData(docCompacted, revealDoc map[string]interface{},
 
 	for i := range revealDocumentStatements {
 		statement := revealDocumentStatements[i]
-		statementInd := documentStatementsMap[statement]
+
+		statementInd, ok := documentStatementsMap[statement]
+		if !ok {
+			return nil, fmt.Errorf("statement of the reveal document is not a statement of the signed document: %s",
+				statement)
+		}
+
 		revealIndexes[i] = statementInd
 	}
 
